@@ -10,7 +10,7 @@ from mirsym.parser import Unsupported
 from mirsym.values import Adt, clone_val, PyVec, Some, NONE, SegStr
 from mirsym.models.core import val_eq, z_and, z_all, z_any, z_not, z_or
 from .common import get_interp, show, Scheduler
-from .cloudworld import CloudWorld
+from .cloudworld import CloudWorld, replay_scenario, replay_judge, validate_samples  # noqa: F401
 from .c09 import Program, Then, is_add_result
 
 PROPERTY = 'C10'
@@ -53,15 +53,14 @@ class Harness:
             kind = c.choose(2, 'orphan-parent')          # 0: child of the latest (upload in flight), 1: child of an older version
             p = chain[-1][1] if kind == 0 else chain[0][0] if n == 1 else chain[-2][1]
             cid = w.new_uuid()
-            w.store.seq += 1
-            w.store.objs.append({'name': SegStr(['v-', ('uuid', p), '-', ('uuid', cid)]), 'value': PyVec([0]), 'creation': now, 'seq': w.store.seq})
+            w.tweak_put(SegStr(['v-', ('uuid', p), '-', ('uuid', cid)]), PyVec([0]), now)
             orph.append((p, cid, kind))
         # object ages: symbolic, old or young is decided by z3 at the comparison cleanup makes
         for o in w.store.objs:
             if isinstance(o['name'], SegStr):
                 t = c.fresh_int('created', 0, 4_000_000_000)
                 c.assume(t <= now)
-                o['creation'] = t
+                w.tweak_creation(o, t)
         initial = [dict(o) for o in w.store.objs]
         # --- the race: A cleans up, B does something else
         other = self.others[c.choose(len(self.others), 'other-client')]
@@ -91,11 +90,14 @@ class Harness:
             progs.append(Program(I, [lambda rs: w.f_cleanup(b_srv)]))
         sched = Scheduler(I, ctx, clients=[0, 1])
         sched.READS = ('get', 'list')
+        w.begin_race()
         results = sched.run(progs, 'svc', max_steps=400)
+        w.end_race(sched)
         a_handle.fault = None
 
         def wit(m):
-            return {'chain': show([(p, v) for p, v, _ in chain], m), 'snapshots_at': [k for _, _, k in snaps], 'orphans': show(orph, m),
+            scn, pred = w.record(m)
+            return {'cloud': {'scenario': scn, 'predicted': pred}, 'chain': show([(p, v) for p, v, _ in chain], m), 'snapshots_at': [k for _, _, k in snaps], 'orphans': show(orph, m),
                     'other': other, 'stop_after': stop_after, 'schedule': [(t, lab) for t, lab in sched.trace],
                     'ages': show([(o['name'].segs if isinstance(o['name'], SegStr) else o['name'], o['creation']) for o in initial], m), 'now': show(now, m)}
         # B's calls must succeed (A's cleanup may have been stopped on purpose)
@@ -173,6 +175,9 @@ class Harness:
             return None
         out = {'chain': n, 'snapshots': len(snaps), 'orphans': len(orph), 'other': other, 'stop_after': stop_after, 'requests': len(sched.trace)}
         if c.want_sample:
+            m = c.get_model()
+            if m is not None:
+                out['scenario'], out['predicted'] = w.record(m)
             out['_encoded'] = sorted(I.encoded)
             out['_modelled'] = sorted(I.modelled)
         return out
@@ -200,7 +205,7 @@ ASSUMPTIONS = [
     'interleaving granularity = one Service request (list page included); compare_and_swap atomic (Service contract)',
     'object creation times are arbitrary instants not later than now; SystemTime::now is one symbolic instant >= 360 days after the epoch',
     'ring primitives idealised; version ids fresh, distinct, symbolic order (cleanup sorts and binary-searches them)',
-    'counterexamples are judged by the engine: CloudServer::cleanup is private (see DESIGN.md, hooks)',
+    'replay: store content, ages, schedule and stop point are run on the compiled CloudServer (cleanup through the hook) over the gated hook store; the run is repeated until the randomly minted ids have the relative order of the model; confirmed when results, request log and store equal the prediction',
 ]
 EXPLANATION = ('store content (chain length, snapshot positions, orphans) and the other client\'s action forked; object ages, version id order and '
                'payload bytes symbolic; every schedule explored; z3 must refute: a needed chain version deleted, all snapshots deleted, the chain '
